@@ -129,8 +129,15 @@ def gen_ext(rng, sysd, zero_ends=False, delay=None):
         kd = 0 if amps[0] != 0 else rng.choice([0, 0, 1, 3, rng.randint(1, 10)])
     else:
         kd = delay
-    return {'kind': 'ext', 'ch': rng.choice(gl.CHN), 'times': [k * r for k in ks], 'amps': amps, 'delay': kd * r,
-            'k': [kd] + ks}
+    d = {'kind': 'ext', 'ch': rng.choice(gl.CHN), 'times': [k * r for k in ks], 'amps': amps, 'delay': kd * r,
+         'k': [kd] + ks}
+    if rng.random() < 0.25:
+        # samples given as whole numbers in an integer array
+        d['amps'] = [float(round(a)) for a in amps]
+        if all(a == 0 for a in d['amps']):
+            d['amps'][1] = 1000.0
+        d['dtype'] = 'int'
+    return d
 
 
 def gen_arb(rng, sysd, zero_ends=False):
@@ -149,6 +156,9 @@ def gen_arb(rng, sysd, zero_ends=False):
     elif n == 1 or rng.random() < 0.5:
         d['first'] = rng.uniform(-1e5, 1e5)
         d['last'] = rng.uniform(-1e5, 1e5)
+    if rng.random() < 0.25:
+        d['wf'] = [float(round(a)) for a in d['wf']]
+        d['dtype'] = 'int'
     return d
 
 
